@@ -36,11 +36,11 @@ P['C02'] = {
 }
 
 P['C13'] = {
-    'units': ['hdlc', 'crc', 'kani:hdlc'],
-    'technique': 'Verus contracts (the per-bit HDLC rules as postconditions) on the real HdlcDeframer::update_state / work; Verus proof of FCSTAB, calc_crc (any length) and find_right_crc against the bitwise CRC-16/X.25; Kani/CBMC full-domain proofs of bits2byte and of calc_crc on the compiled code for short messages',
-    'level_text': 'Automaton + kernels: for every state and every input bit update_state follows the HDLC rules (flag opens a frame, a zero after five ones is discarded, seven ones abort, over-long frames are dropped only beyond max_size bytes and without losing the bit that revealed it, a closing flag re-opens); nothing is emitted unless the buffered bits are whole bytes >= min_size and (checksum on, no bit fixing) the CRC equals the FCS; such a frame IS emitted; never Err or panic; work() feeds every bit of its window. Checksum: every FCSTAB entry is the eight-shift function of its index (by computation), calc_crc == bitwise CRC-16/X.25 for messages of EVERY length (loop invariant + register linearity by bit-vector reasoning), find_right_crc repairs only when asked, only by one flipped data bit whose CRC matches, never the FCS (dead loop), and claims nothing if no flip matches. bits2byte for all 256 vectors (Kani). The framing-then-deframing round trip is NOT proved.',
-    'level_note': 'The framing state machine is proved rule by rule, not as one stream function; the round trip needs an encoder specification and an induction over bit stuffing. Kani cross-checks calc_crc on the compiled code for lengths 1, 2 (thorough: 3..8).',
-    'not_covered': ['end-to-end round trip deframe(frame(p)) == p (needs an encoder spec and an induction over bit stuffing)', 'that a single-bit repair restores the ORIGINAL frame (CRC theory: minimum distance), only that it is a single-bit flip whose CRC matches'],
+    'units': ['hdlc', 'crc', 'hdlcrt', 'kani:hdlc'],
+    'technique': 'Verus: (1) the real HdlcDeframer::update_state / work proved equal to a spec automaton hd_next / hd_run over the consumed bits; (2) FCSTAB, calc_crc (any length), find_right_crc, bits2byte against the bitwise CRC-16/X.25 and the LSB-first byte; (3) the ROUND TRIP as a theorem about hd_run and an encoder specification (induction over bit stuffing); Kani cross-checks of bits2byte / calc_crc on the compiled code',
+    'level_text': 'Round trip, no bound: for every payload whose on-the-wire size lies within [min_size, max_size], with or without checksum checking and bit fixing, and whatever follows, hd_run started right after an opening flag and fed stuff(LSB-first bits of payload ++ FCS) ++ flag delivers exactly that payload, once, and is again right after an opening flag (theorem_round_trip, by an induction over bit stuffing; a concrete frame is also evaluated as a vacuity guard). The real deframer IS hd_run: update_state equals the spec step hd_next for every state and bit, and work() folds it over its window, so the result does not depend on chunking. Also as separate clauses: the per-bit HDLC rules, nothing is emitted unless whole bytes within the size bounds whose CRC verifies, over-long frames are dropped without losing the bit that revealed them. Checksum: every FCSTAB entry by computation, calc_crc == bitwise CRC-16/X.25 for EVERY length, find_right_crc proved of its body, bits2byte == the LSB-first byte.',
+    'level_note': 'The encoder is a specification written from the HDLC rules (rustradio has none to extract); the theorem starts right after a recognised opening flag (from the all-ones search register a flag is recognised at its last bit: lemma_opening_flag), not after arbitrary noise -- noise ending in 0111111 merges with the flag and legitimately costs the frame. That 1-2 bit corruptions are always detected is CRC theory and is not proved; that nothing with a wrong CRC is emitted is.',
+    'not_covered': ['arbitrary noise before the opening flag (the theorem starts after a recognised flag)', 'that 1-2 bit corruptions are always detected and that a single-bit repair restores the ORIGINAL frame (CRC theory: minimum distance); proved: nothing with a wrong CRC is emitted, a repair is a single-bit flip whose CRC matches'],
     'assumptions': ['spec_byte is tied to bits2byte through the Kani group (all 256 vectors); the clauses unit hdlc assumes of find_right_crc are proved of its body in unit crc'],
 }
 P['C14'] = {
